@@ -287,10 +287,13 @@ def oracle_c18(c, r, err=""):
         if c["bounded"] and v <= ULPS * ulp(scale) and c["algo"] in FIRST_ORDER and r.get("violcb", 0) != 0:
             bad.append(("rounding-overshoot-at-face<=4ulp", "box left by %.3g (<= %d ulp of %.3g) at %s: rounding of x + (a*s)*d at a face reached by a line-search step"
                         % (v, ULPS, scale, where)))
-        elif v == float("inf") and c["algo"] == "L-BFGS" and c["f"] == "lin":
-            # F-64: zero curvature along the last step (linear cost): 1/max(s.y, 10*DBL_MIN) blows the two-loop direction up
-            bad.append(("lbfgs-zero-curvature-nan-state", "a NaN state was handed to the user at %s (L-BFGS on a cost with zero "
-                        "curvature: rho = 1/(10*DBL_MIN))" % where))
+        elif c["algo"] == "L-BFGS" and ((viol >= retv and r.get("violx") != r.get("violx")) or
+                                        (viol < retv and r["x"][reti] != r["x"][reti])):
+            # F-64: zero curvature along the last step (cost linear along it): y = 0, rho = 1/max(s.y, 10*DBL_MIN) = 4.5e306
+            # blows the two-loop direction up, norm2(direction) = inf, trial state x + (inf*0)*d = NaN.  (A non-finite
+            # value returned by the user ends an L-BFGS run at once, so a NaN STATE can only come from the recursion.)
+            bad.append(("lbfgs-zero-curvature-nan-state", "a NaN state was handed to the user at %s (L-BFGS, zero curvature along "
+                        "the last step: rho = 1/(10*DBL_MIN))" % where))
         else:
             bad.append(("box-violation", "state outside the box by %.6g at %s" % (v, where)))
     # --- start handling: the first state handed to the user is the projected start
